@@ -2,6 +2,7 @@
 (* Candidate designs of the shutdown write, as programs for StateFile. *)
 EXTENDS Integers, Sequences
 CONSTANTS Design, OldLen, NewLen
+NextLens == <<3, 12>>   \* a shorter, then a longer state in the next two generations
 Op(op, name, name2, fd, n, trunc, creat) == [op |-> op, name |-> name, name2 |-> name2, fd |-> fd, n |-> n, trunc |-> trunc, creat |-> creat]
 (* os.WriteFile: open with O_TRUNC, write, close *)
 TruncWrite == << Op("open", "state", "", 3, 0, TRUE, TRUE), Op("write", "", "", 3, NewLen, FALSE, FALSE), Op("close", "", "", 3, 0, FALSE, FALSE) >>
@@ -13,7 +14,11 @@ TempRename2 == << Op("open", "tmp", "", 3, 0, TRUE, TRUE), Op("write", "", "", 3
                   Op("close", "", "", 3, 0, FALSE, FALSE), Op("rename", "tmp", "state", 0, 0, FALSE, FALSE) >>
 (* remove the old file first, then write: loses the previous state *)
 UnlinkWrite == << Op("unlink", "state", "", 0, 0, FALSE, FALSE), Op("open", "state", "", 3, 0, FALSE, TRUE), Op("write", "", "", 3, NewLen, FALSE, FALSE), Op("close", "", "", 3, 0, FALSE, FALSE) >>
-Prog == CASE Design = "truncwrite" -> TruncWrite [] Design = "temprename" -> TempRename [] Design = "temprename2" -> TempRename2 [] OTHER -> UnlinkWrite
-VARIABLES dir, ino, fds, pc, killed, nextIno, act
+(* the temporary file is opened without O_TRUNC: harmless until a shorter state follows a killed longer one *)
+TempNoTrunc == << Op("open", "tmp", "", 3, 0, FALSE, TRUE), Op("write", "", "", 3, NewLen, FALSE, FALSE), Op("fsync", "", "", 3, 0, FALSE, FALSE),
+                  Op("close", "", "", 3, 0, FALSE, FALSE), Op("rename", "tmp", "state", 0, 0, FALSE, FALSE) >>
+Prog == CASE Design = "truncwrite" -> TruncWrite [] Design = "temprename" -> TempRename [] Design = "temprename2" -> TempRename2
+          [] Design = "tempnotrunc" -> TempNoTrunc [] OTHER -> UnlinkWrite
+VARIABLES dir, ino, fds, pc, killed, nextIno, gen, loaded, refused, act
 INSTANCE StateFile
 =============================================================================
